@@ -443,7 +443,8 @@ class SNum(object):
             return True
         return self._bin(o, lambda a, b: num_cmp(a, b, "!="))
 
-    __hash__ = None
+    def __hash__(self):
+        return id(self)
 
     def __bool__(self):
         # truth value of a number: nonzero (NaN is truthy, masked is falsy)
